@@ -375,6 +375,8 @@ def splice_fn(it_spec, item, contract, unit, em, extraction, active=None, featur
         if mw:
             rt, wh = rt[:mw.start()].strip(), "\n    " + rt[mw.start():].strip().rstrip(",")
         sig = sig[:m.start()] + "-> (%s: %s)%s\n" % (ret, rt, wh)
+    if it_spec.get("sig_where"):
+        sig = sig.rstrip() + "\n    where " + it_spec["sig_where"] + "\n"
     if it_spec.get("sig_prefix"):
         sig = it_spec["sig_prefix"] + " " + sig.lstrip()
     # ---- R18: `mut self` (by value) is not accepted by Verus: take it as `self` and rebind it at function entry
